@@ -372,6 +372,19 @@ func (s *storeSnapshot) referenced() map[string]bool {
 	return ref
 }
 
+// onlyReferenced returns the snapshot without blob files that no readable manifest references.
+func (s *storeSnapshot) onlyReferenced() *storeSnapshot {
+	ref := s.referenced()
+	out := &storeSnapshot{manifests: s.manifests, unread: s.unread, blobs: map[string]string{}, sizes: map[string]int64{}}
+	for f, sum := range s.blobs {
+		if ref[f] {
+			out.blobs[f] = sum
+			out.sizes[f] = s.sizes[f]
+		}
+	}
+	return out
+}
+
 // restart runs the repository's own start-up sequence (sliced out of Serve by
 // the instrumenter) in a fresh "process". Must run in a task.
 func (w *storeWorld) restart() error {
